@@ -217,6 +217,11 @@ def oracle_component_repeat(R, tier, seed):
         ("StructureWeightLoads", lambda: StructureWeightLoads(surface=surf), lambda: {"element_mass": draw(ny - 1, 5, 50), "nodes": 0.65 * mesh[0] + 0.35 * mesh[-1] + rng.normal(size=(ny, 3)) * 0.01, "load_factor": float(draw((), 1, 2.5))}),
         ("Rotate", lambda: T.Rotate(val=np.zeros(ny), mesh_shape=mesh.shape, symmetry=True), lambda: {"in_mesh": mesh + rng.normal(size=mesh.shape) * 0.01, "twist": rng.uniform(-5, 5, ny)}),
         ("ScaleX", lambda: T.ScaleX(val=np.ones(ny), mesh_shape=mesh.shape), lambda: {"in_mesh": mesh + rng.normal(size=mesh.shape) * 0.01, "chord": draw(ny)}),
+        # documented option values other than the defaults take other branches of compute_partials
+        ("Rotate(rotate_x=False)", lambda: T.Rotate(val=np.zeros(ny), mesh_shape=mesh.shape, symmetry=True, rotate_x=False), lambda: {"in_mesh": mesh + rng.normal(size=mesh.shape) * 0.01, "twist": rng.uniform(-5, 5, ny)}),
+        ("Rotate(full span)", lambda: T.Rotate(val=np.zeros(ny), mesh_shape=mesh.shape, symmetry=False), lambda: {"in_mesh": mesh + rng.normal(size=mesh.shape) * 0.01, "twist": rng.uniform(-5, 5, ny)}),
+        ("Taper(full span)", lambda: T.Taper(val=1.0, mesh=mesh, symmetry=False), lambda: {"taper": float(rng.uniform(0.3, 1.2))}),
+        ("Sweep(full span)", lambda: T.Sweep(val=0.0, mesh_shape=mesh.shape, symmetry=False), lambda: {"in_mesh": mesh + rng.normal(size=mesh.shape) * 0.01, "sweep": float(rng.uniform(-10, 30))}),
     ]
     # components that sit inside the coupled loop and whose inputs move between design points: point masses / engines placed at
     # different spanwise stations in A and in B (outputs are compared as well as stored partials)
